@@ -11,6 +11,8 @@ ns_t vnow = VBASE;
 __thread int me = 0;
 int simk_passthrough;
 int simk_in_probe;
+int simk_log_dec;
+int simk_quiet_io;
 int simk_wait_limit = 1000;
 struct simk_hooks hooks;
 
@@ -159,6 +161,10 @@ static int quiesce_idx;
 static int nwaits;
 static pthread_key_t exitkey;
 static int sticky = 3;		/* 1 in `sticky+1` chance to consider switching */
+int simk_sched_det;		/* 1: after the prefix, stay on the current thread, else lowest id */
+#define MAXDEC 2000
+static short dec[MAXDEC][2];
+static int ndec;
 
 struct lk { void *m; int owner; };
 #define MAXLK 256
@@ -174,6 +180,8 @@ int __real_pthread_spin_unlock(pthread_spinlock_t *);
 int simk_nthreads(void) { return nth; }
 int simk_wait_count(void) { return nwaits; }
 void simk_set_schedule(const int *s, int n) { schedv = s; schedn = n; schedi = 0; }
+void simk_set_sticky(int n) { sticky = n; }
+void simk_yield(void);
 
 static int lk_idx(void *m)
 {
@@ -322,7 +330,7 @@ static void pick_and_wait(void)
 			continue;
 		}
 		nx = -1;
-		if (schedv && schedi < schedn) {
+		if (n > 1 && schedv && schedi < schedn) {
 			int want = schedv[schedi++];
 			for (int i = 0; i < n; i++)
 				if (cand[i] == want)
@@ -333,10 +341,22 @@ static void pick_and_wait(void)
 			for (int i = 0; i < n; i++)
 				if (cand[i] == me)
 					mine = 1;
-			if (mine && n > 1 && (rnd() % (sticky + 1)) != 0)
+			if (n == 1)
+				nx = cand[0];
+			else if (simk_sched_det)
+				nx = mine ? me : cand[0];
+			else if (mine && (rnd() % (sticky + 1)) != 0)
 				nx = me;
 			else
 				nx = cand[rnd() % n];
+		}
+		if (n > 1 && ndec < MAXDEC) {
+			int mask = 0;
+			for (int i = 0; i < n; i++)
+				mask |= 1 << cand[i];
+			dec[ndec][0] = nx;
+			dec[ndec][1] = mask;
+			ndec++;
 		}
 		cur = nx;
 		if (cur != me) {
@@ -430,6 +450,8 @@ static void yield_point(void)
 	pick_and_wait();
 	__real_pthread_mutex_unlock(&M);
 }
+
+void simk_yield(void) { yield_point(); }
 
 struct boot { void *(*fn)(void *); void *arg; int id; };
 
@@ -877,7 +899,7 @@ ssize_t __wrap_write(int fd, const void *buf, size_t n)
 	}
 	ssize_t r = __real_write(fd, buf, n);
 	e = errno;
-	if (!simk_passthrough) {
+	if (!simk_passthrough && !simk_quiet_io) {
 		__real_pthread_mutex_lock(&M);
 		simk_progress();
 		__real_pthread_mutex_unlock(&M);
@@ -941,6 +963,15 @@ void simk_end(const char *why, int sig)
 	if (ending++)
 		_exit(0);
 	tr("\"e\":\"End\",\"why\":\"%s\",\"sig\":%d,\"now\":[%lld,%lld]}", why, sig, TS(vnow));
+	if (ndec && simk_log_dec) {
+		/* scheduling decisions (chosen thread, bit mask of enabled threads) */
+		static char b[MAXDEC * 12 + 64];
+		size_t off = 0;
+		for (int i = 0; i < ndec; i++)
+			off += snprintf(b + off, sizeof b - off, "%s[%d,%d]", i ? "," : "", dec[i][0], dec[i][1]);
+		tr_flush();
+		tr("\"e\":\"Dec\",\"d\":[%s]}", b);
+	}
 	tr_flush();
 	_exit(0);
 }
